@@ -45,7 +45,8 @@ def objOf (j : Json) : Except String Obj := do
   pure { ent := ← natOf (← fld j "ent"), status := ← statusOf (← fromJson? (← fld j "status")), hasCache := ← boolOf (← fld j "cache"),
          vals := ← optOf (listOf (pairOf slotOf)) (fldOpt j "vals"),
          dbvals := ← optOf (listOf (pairOf (optOf intOf))) (fldOpt j "dbvals"),
-         rbits := ← optOf natOf (fldOpt j "rbits"), wbits := ← optOf natOf (fldOpt j "wbits"), savePos := ← optOf natOf (fldOpt j "savePos") }
+         rbits := ← optOf natOf (fldOpt j "rbits"), wbits := ← optOf natOf (fldOpt j "wbits"), savePos := ← optOf natOf (fldOpt j "savePos"),
+         seed := ((j.getObjValAs? Bool "seed").toOption).getD false }
 
 def worldOf (j : Json) : Except String World := do
   pure { alive := ← boolOf (← fld j "alive"), savedPending := ← boolOf (← fld j "savedPending"), objs := ← listOf objOf (← fld j "objs") }
@@ -58,7 +59,7 @@ def attrOf (j : Json) : Except String Attr := do
   pure { id := ← natOf (← fld j "id"), ent := ← natOf (← fld j "ent"), kind := ← kindOf (← fromJson? (← fld j "kind")),
          isPk := ← boolOf (← fld j "pk"), isLazy := ← boolOf (← fld j "lazy"), bit := ← natOf (← fld j "bit"),
          rev := ← natOf (← fld j "rev"), revIsColl := ← boolOf (← fld j "revColl"), revIsPk := ← boolOf (← fld j "revPk"),
-         revBit := ← natOf (← fld j "revBit") }
+         revBit := ← natOf (← fld j "revBit"), refSubclasses := ((j.getObjValAs? Bool "refSub").toOption).getD false }
 
 def opOf (j : Json) : Except String Op := do
   let k ← argStr j "k"
@@ -67,6 +68,9 @@ def opOf (j : Json) : Except String Op := do
   | "getAttr" => pure (.getAttr (← a))
   | "attrLoad" => pure (.attrLoad (← a))
   | "setAttr" => pure (.setAttr (← a))
+  | "attrChanged" => pure (.attrChanged (← a))
+  | "collStr" => pure (.collStr (← a))
+  | "collCreate" => pure (.collCreate (← a))
   | "setMany" => pure .setMany
   | "delete" => pure .delete
   | "flush" => pure .flush
@@ -106,7 +110,7 @@ def jObj (o : Obj) : Json :=
   Json.mkObj [("ent", jNat o.ent), ("status", .str (statusStr o.status)), ("cache", .bool o.hasCache),
               ("vals", jOpt (jList (fun p => .arr #[jNat p.1, jSlot p.2])) o.vals),
               ("dbvals", jOpt (jList (fun p => .arr #[jNat p.1, jOpt jInt p.2])) o.dbvals),
-              ("rbits", jOpt jNat o.rbits), ("wbits", jOpt jNat o.wbits), ("savePos", jOpt jNat o.savePos)]
+              ("rbits", jOpt jNat o.rbits), ("wbits", jOpt jNat o.wbits), ("savePos", jOpt jNat o.savePos), ("seed", .bool o.seed)]
 def jWorld (w : World) : Json :=
   Json.mkObj [("alive", .bool w.alive), ("savedPending", .bool w.savedPending), ("objs", jList jObj w.objs)]
 
@@ -123,6 +127,7 @@ def jRv : Rv → Json
   | .items l => Json.mkObj [("items", jList jNat l)]
   | .wrapper => .str "wrapper"
   | .query => .str "query"
+  | .dots => .str "..."
 
 def jOut : Out → Json
   | .value v => Json.mkObj [("value", jRv v)]
